@@ -85,6 +85,11 @@ fn main() {
             let _ = std::fs::write(format!("{dir}/b64_diff/seed"), b"q83vEjRWeJA");
             let _ = std::fs::write(format!("{dir}/unseal_edit/seed"), [0u8; 16]);
         }
+        Some("genkeys-odd") => {
+            let path = concat!(env!("CARGO_MANIFEST_DIR"), "/data/rsa_pool.json");
+            let out = keypool::add_odd(&std::fs::read_to_string(path).unwrap());
+            std::fs::write(path, out).unwrap();
+        }
         Some("genkeys") => {
             let out = keypool::generate(8, 4);
             std::fs::write(concat!(env!("CARGO_MANIFEST_DIR"), "/data/rsa_pool.json"), out).unwrap();
